@@ -387,7 +387,9 @@ class Gen:
 			if rng.random() < 0.5:
 				raw = b"CMD" + raw
 		elif kind == "overlong":
-			verb = rng.choice(["SETFH 1 0", "RXTUNE", "FOO", "POWERON"])
+			# (no over-long SETFH: it may legitimately be applied, and other sockets' datagrams of the
+			# same instant are served before a corrective command on this socket could be read)
+			verb = rng.choice(["RXTUNE", "FOO", "POWERON", "MEASURE", "SETFORMAT"])
 			raw = ("CMD " + verb + " " + " ".join(
 				str(rng.choice(self.pool)) for _ in range(rng.choice([700, 1200])))).encode() + b"\0"
 			if verb.startswith("SETFH"):  # may or may not be applied: define the state again at once
